@@ -778,11 +778,15 @@ class Result(JsonSerializable):
                               value=d['value'],
                               total=d['total'],
                               accumulate_values=d['accumulate_values_bool'])
-            r._value_list = d['value_list']
-            r._total_list = d['total_list']
-            r.num_updates = d['num_updates']
-            r._result_sum = d['result_sum']
-            r._result_squared_sum = d['result_squared_sum']
+
+        # Restore the saved statistics for all result types (the updates
+        # performed above only approximate them)
+        r._total = d['total']
+        r._value_list = d['value_list']
+        r._total_list = d['total_list']
+        r.num_updates = d['num_updates']
+        r._result_sum = d['result_sum']
+        r._result_squared_sum = d['result_squared_sum']
         return r
 
 
